@@ -101,15 +101,11 @@ def handle (p : List Sexp) : String :=
       | some a, some b =>
         let w := mkW (parseAssoc m)
         let a := nats a; let b := nats b
-        let c := compareSpec w false a b
-        let t := fun (x : Bool) => if x then "1" else "0"
-        let lk := match like w false 92 b a with | some r => t r | none => "err"
-        let row := fun (inlit : Bool) =>
-          ",".intercalate [t (c == 0), t (c < 0), t (c > 0), lk, t (c == 0), t inlit, t (c == 0), toString c]
-        -- Go: a literal IN list is hashed without the column's collation
-        let impl := row (a == b)
-        let spec := row (c == 0)
-        if impl == spec then answer impl else answer impl spec "in_literal_list_ignores_collation"
+        -- Go: a literal IN list is hashed with the literal's collation, not the column's (Model: sqlRowImpl)
+        let impl := ",".intercalate (sqlRowImpl w a b)
+        let spec := ",".intercalate (sqlRowSpec w a b)
+        if decide (InLiteralRegion w a b) then answer impl spec "in_literal_list_ignores_collation"
+        else answer impl spec
       | _, _ => answer "bad-case"
     | _, _ => answer "bad-case"
   | _ => answer "bad-case"
